@@ -104,7 +104,7 @@ SAFE = {
     ('prophyc.parsers.prophy:Parser.t_CONST10', 'int(_v0.value)'): LEX,
     ('prophyc.parsers.prophy:Parser.t_CONST16', 'int(_v0.value, 16)'): LEX,
     ('prophyc.parsers.prophy:Parser.t_CONST8', 'int(_v0.value, 8)'): LEX,
-    ('prophyc.parsers.prophy:Parser.p_expression_name', 'int(_v0.value)'):
+    ('prophyc.parsers.prophy:Parser.p_expression_name', 'ANY ValueError'):
         'constants of the prophy front-end hold str(<int>): every operator of the evaluator is integer-closed (C14.integer-closure)',
     ('prophyc.generators.cpp_full:generate_struct_encode', 'd, dcpptype = delimiters[m.name]'): TUPLE2,
     ('prophyc.generators.cpp_full:generate_struct_encode', '_v0, _v1 = _v2[_v3.name]'): TUPLE2,
